@@ -255,12 +255,29 @@ def _thread_from(caller, S, env, escaped, limit=48):
         elif k == "switch":
             sh = _op_shape(t["discr"], env)
             if sh is None or sh[0] != "c":
-                break
-            nxt = t.get("otherwise")
-            for v, tg in t["targets"]:
-                if v == sh[1]:
-                    nxt = tg
-            kind = "useful" if sh[2] else "switch"
+                # a drop-flag diamond (`if flag { drop(x) }`, both arms meeting again at once): the
+                # flag was set before the return value was formed and is not known here, but the
+                # diamond decides nothing - it is copied whole and the walk goes on behind it
+                tg = sorted(set([t.get("otherwise")] + [x for _, x in t["targets"]]) - {None})
+                dia = None
+                if len(tg) == 2:
+                    for a_, b_ in ((tg[0], tg[1]), (tg[1], tg[0])):
+                        tb = blocks[b_]["term"]
+                        if tb["k"] == "drop" and tb.get("target") == a_ and not blocks[b_]["stmts"]:
+                            dia = (a_, b_)
+                if dia is None:
+                    break
+                nxt, extra = dia
+                pl = blocks[extra]["term"].get("place") or {}
+                if isinstance(pl.get("local"), int):
+                    env.pop(pl["local"], None)
+                kind = ("diamond", extra)
+            else:
+                nxt = t.get("otherwise")
+                for v, tg in t["targets"]:
+                    if v == sh[1]:
+                        nxt = tg
+                kind = "useful" if sh[2] else "switch"
         else:
             break
         if nxt is None or nxt in seen:
@@ -270,7 +287,7 @@ def _thread_from(caller, S, env, escaped, limit=48):
         for s in blocks[nxt]["stmts"]:
             _apply_stmt(s, env, escaped)
         cur = nxt
-    last = max([i for i, (b, n, kd) in enumerate(path) if kd == "useful"], default=None)
+    last = max([i for i, (b, n, kd) in enumerate(path) if kd == "useful"], default=None)   # (a diamond is never the last step)
     if last is None:
         return 0
     # duplicate path[1..last] (the blocks after S up to the last usefully resolved switch)
@@ -285,6 +302,7 @@ def _thread_from(caller, S, env, escaped, limit=48):
         if t.get("target") == old:
             t["target"] = new
         return t
+    extras = []
     for i, (b, n, kd) in enumerate(path[:last + 1]):
         tgt_new = clones.get(n, n)
         if i == 0:
@@ -294,10 +312,24 @@ def _thread_from(caller, S, env, escaped, limit=48):
             for kx, vx in blocks[b].items():
                 if kx not in blk:
                     blk[kx] = copy.deepcopy(vx)
-        blk["term"] = retarget(blocks[b]["term"], n, tgt_new, kd in ("switch", "useful"))
+        if isinstance(kd, tuple) and kd[0] == "diamond":
+            ex = kd[1]
+            ex_new = base + len(seq) + len(extras)
+            exb = copy.deepcopy(blocks[ex])
+            exb["term"]["target"] = tgt_new
+            extras.append(exb)
+            tt = copy.deepcopy(blocks[b]["term"])
+            remap = lambda x: tgt_new if x == n else (ex_new if x == ex else x)
+            tt["targets"] = [[v, remap(x)] for v, x in tt["targets"]]
+            if tt.get("otherwise") is not None:
+                tt["otherwise"] = remap(tt["otherwise"])
+            blk["term"] = tt
+        else:
+            blk["term"] = retarget(blocks[b]["term"], n, tgt_new, kd in ("switch", "useful"))
         if i > 0:
             blocks.append(blk)
-    return len(seq)
+    blocks.extend(extras)
+    return len(seq) + len(extras)
 
 
 def _thread_returns(caller, lo, hi, ret_local):
